@@ -15,7 +15,9 @@ CFG = {
                    "GeoProofs/Lemmas/RELMMono.lean", "GeoProofs/Lemmas/RELMDisjoint.lean", "GeoProofs/Lemmas/RELMSwap.lean",
                    "GeoProofs/Lemmas/RELMAtoms.lean", "GeoProofs/Lemmas/RELMNodes.lean", "GeoProofs/Lemmas/RELMPoint.lean",
                    "GeoProofs/Lemmas/RELMPoint2.lean", "GeoProofs/Lemmas/RELMPoint3.lean", "GeoProofs/Lemmas/RELMPoint4.lean",
-                   "GeoProofs/Lemmas/RELMPointPoint.lean", "GeoProofs/Lemmas/RELMMultiPoint.lean"],
+                   "GeoProofs/Lemmas/RELMPointPoint.lean", "GeoProofs/Lemmas/RELMMultiPoint.lean",
+                   "GeoProofs/Lemmas/RELMOrder1.lean", "GeoProofs/Lemmas/RELMOrder2.lean", "GeoProofs/Lemmas/RELMOrder3.lean",
+                   "GeoProofs/Lemmas/RELMOrder4.lean", "GeoProofs/Lemmas/RELMOrder5.lean"],
     "rule": "ordered pairs (A, B) over all 10 geometry types (Geometry enum on both sides) drawn from one shared 3..6 grid: polyomino polygons with "
             "holes (incl. holes tangent to the shell), star polygons, rectangles with holes, corner-touching multipolygons, self-avoiding lattice "
             "paths, multi line strings sharing end points (mod-2 rule), half-grid points, same-dimension collections; each case also relates the "
@@ -38,8 +40,9 @@ CFG = {
         "interior connectedness of polygons is not part of the executable validity predicate",
         "model of the implementation (RelateImpl*.lean, GeomGraph.lean): hand-written from relate_operation.rs, edge_end_builder.rs, geomgraph/*.rs, "
         "geomgraph/index/*.rs; checked against the real code on every run (C01.impl), not generated from it. It tests all segment pairs where the code asks "
-        "an R-tree for the pairs with intersecting envelopes (line_intersection answers None for the others; the recorded sets are order-independent in exact "
-        "arithmetic — argued in the file header, not proved); BTreeMap/BTreeSet are sorted association lists with the map's own linear key scan (faithful for "
+        "an R-tree for the pairs with intersecting envelopes: proved equivalent in exact arithmetic for any candidate list that contains every pair with "
+        "intersecting envelopes, in any order and with repetitions (selfNoding_order_independent, mutualPhase_order_independent); that rstar reports all such "
+        "pairs is an assumption about the external crate; BTreeMap/BTreeSet are sorted association lists with the map's own linear key scan (faithful for "
         "consistent comparators; with a zero-length Line up to 11 directions per node); robust orientation is exact; debug_asserts are not modelled",
         "relate's float arithmetic enters the model as a parameter (crossing point of a proper intersection, coordinate subtraction): the theorems hold for "
         "every instance, relateImpl is the exact instance, the correspondence uses the points the code computed (C11 bounds their error)",
@@ -117,7 +120,12 @@ MANIFEST = {
             "specification wherever coordinate_position = locate (relateImpl_point_rows, _isolated, relateImpl_point_rows_eq_spec_partial; via the sorted node "
             "map, slot independence of the label operations and 'every component of B ends up Outside of a point'); the transpose law is false of the code "
             "as written for invalid input: a zero-length Line makes a zero-length edge end whose key compares Equal to every key, so the bundles depend on "
-            "insertion order (relateImpl_transpose_fails_witness: triangle x zero-length Line at a vertex, FF21F1FF2 vs 10FFFF2F2, the real code agrees). Not "
+            "insertion order (relateImpl_transpose_fails_witness: triangle x zero-length Line at a vertex, FF21F1FF2 vs 10FFFF2F2, the real code agrees); "
+            "all-pairs loop of the model = R-tree candidate traversal of the code in exact arithmetic: compute_edge_distance is injective along a segment "
+            "(impl_edgeDistance_injective), so the key (segment index, distance) of an EdgeIntersection determines its coordinate, the BTreeSet of an edge is the "
+            "canonical sorted list of the set of intersections found, and visiting any candidate list that contains all pairs with intersecting envelopes — in "
+            "any order, with repetitions — gives the same edges, is_isolated flags and proper-intersection flags, in self-noding and in the mutual phase "
+            "(selfNoding_order_independent, selfNoded_edges_wellFormed, mutualPhase_order_independent). Not "
             "proved: relateImpl = relateSpec on the validity domain in general (Line x Line and beyond), the transpose law for valid operands.",
     "note": "Trusted: Lean kernel + audited axioms; the harness/generators (sampling); spec adequacy S1/S2. Defects found by this check and repaired in /repo: "
             "Triangle vertical edge (29720670), MultiPolygon shared vertex (5f41a6da), MultiLineString boundary_dimensions mod-2 (17c66966). The algorithm of "
